@@ -210,7 +210,6 @@
 #include "extensions/qaconf.h"
 
 #ifndef _DOXYGEN_SKIP
-#define MAX_LINESIZE    (1024*4)
 
 /* internal functions */
 static int addoptions(qaconf_t *qaconf, const qaconf_option_t *options);
@@ -625,7 +624,8 @@ static int _parse_inline(qaconf_t *qaconf, FILE *fp, uint8_t flags,
     if (flags & QAC_CASEINSENSITIVE)
         cmpfunc = strcasecmp;
 
-    char buf[MAX_LINESIZE];
+    char *buf = NULL;  // line buffer, grown by getline(): no length limit
+    size_t bufsize = 0;
     bool doneloop = false;
     bool exception = false;
     int optcount = 0;  // number of option entry processed.
@@ -643,7 +643,7 @@ static int _parse_inline(qaconf_t *qaconf, FILE *fp, uint8_t flags,
         // callback data of this line; must be defined before any EXITLOOP
         qaconf_cbdata_t *cbdata = NULL;
 
-        if (fgets(buf, MAX_LINESIZE, fp) == NULL) {
+        if (getline(&buf, &bufsize, fp) < 0) {
             // Check if section was opened and never closed
             if (cbdata_parent != NULL) {
                 EXITLOOP("<%s> section was not closed.", cbdata_parent->argv[0]);
@@ -970,6 +970,7 @@ static int _parse_inline(qaconf_t *qaconf, FILE *fp, uint8_t flags,
         optcount++;
     }
 
+    free(buf);
     return (exception == false) ? optcount : -1;
 }
 
